@@ -1078,13 +1078,17 @@ helperHandleRead(const Comm::ConnectionPointer &conn, char *, size_t len, Comm::
                 i = strtol(msg, &e, 10);
                 // Do we need to check for e == msg? Means wrong response from helper.
                 // Will be dropped as "unexpected reply on channel 0"
-                needsMore = !(xisspace(*e) || (eom && e == eom));
+                // A channel ID may continue in the next read, but only if
+                // this read has not delivered the end of the reply yet.
+                needsMore = !eom && !xisspace(*e);
                 if (!needsMore) {
                     msg = e;
                     while (*msg && xisspace(*msg))
                         ++msg;
                 } // else not enough data to compute request number
             }
+            if (needsMore)
+                break; // do not look up a request using a partial channel ID
             if (!(srv->replyXaction = srv->popRequest(i))) {
                 if (srv->stats.timedout) {
                     debugs(84, 3, "Timedout reply received for request-ID: " << i << " , ignore");
